@@ -118,7 +118,10 @@ CHECKS = {
                       # clang's ASan/UBSan: g++'s AddressSanitizer pass does not instrument accesses to the parts of a complex
                       # lvalue (`table[i] += z`), clang's does; compiled without OpenMP (regions run serially)
                       dict(harness="c17_workflow", variant="sancl", runs=3000, tl=60),
-                      dict(harness="c06_parallel", variant="sancl", runs=1000, tl=40)],
+                      dict(harness="c06_parallel", variant="sancl", runs=1000, tl=40),
+                      # binary-level subsample (valgrind memcheck over an uninstrumented build): uninitialised reads, and heap
+                      # accesses of statement forms the compilers' sanitizer passes skip, inside OpenMP teams too
+                      dict(harness="c17_workflow", variant="vg", valgrind=True, runs=300, tl=90, watchdog=3000)],
             "thorough": [dict(harness="c17_workflow", variant="san", runs=200000, tl=1200, cfg="big=1"),
                          dict(harness="c06_parallel", variant="san", runs=100000, tl=700),
                          dict(harness="c13_container", variant="san", runs=100000, tl=600),
